@@ -1,0 +1,99 @@
+//go:build verif
+
+package alphabet
+
+// Exhaustive-execution checks used by /verif for finite domains that the
+// deductive verifier does not decide (float tables, built-in instances).
+// Only compiled with -tags verif.
+
+import (
+	"fmt"
+	"strings"
+	"testing"
+)
+
+type verifBuiltin struct {
+	name    string
+	a       Alphabet
+	letters string
+	cased   bool
+}
+
+func verifBuiltins() []verifBuiltin {
+	return []verifBuiltin{
+		{"DNA", DNA, "acgt", false},
+		{"DNAgapped", DNAgapped, "-acgt", false},
+		{"DNAredundant", DNAredundant, "-acmgrsvtwyhkdbn", false},
+		{"RNA", RNA, "acgu", false},
+		{"RNAgapped", RNAgapped, "-acgu", false},
+		{"RNAredundant", RNAredundant, "-acmgrsvuwyhkdbn", false},
+		{"Protein", Protein, "-abcdefghijklmnpqrstvwxyz*", false},
+	}
+}
+
+// TestVerifBounded_C17_Builtins: all 256 letter values of each of the 7 built-in alphabets.
+func TestVerifBounded_C17_Builtins(t *testing.T) {
+	cases, nontrivial := 0, 0
+	for _, b := range verifBuiltins() {
+		a := b.a
+		if a.Len() != len(b.letters) {
+			t.Fatalf("%s: Len %d, definition has %d letters", b.name, a.Len(), len(b.letters))
+		}
+		for i := 0; i < a.Len(); i++ {
+			cases++
+			if got := a.IndexOf(a.Letter(i)); got != i {
+				t.Fatalf("%s: IndexOf(Letter(%d)) = %d", b.name, i, got)
+			}
+		}
+		comp, isComp := a.(Complementor)
+		for v := 0; v < 256; v++ {
+			cases++
+			l := Letter(v)
+			want := strings.ContainsRune(b.letters, rune(v)) && v < 128
+			if !b.cased && v < 128 {
+				want = strings.ContainsRune(b.letters, rune(strings.ToLower(string(rune(v)))[0]))
+			}
+			if a.IsValid(l) != want {
+				t.Fatalf("%s: IsValid(%q) = %v, definition says %v", b.name, l, a.IsValid(l), want)
+			}
+			if a.IsValid(l) {
+				nontrivial++
+				idx := a.IndexOf(l)
+				if idx < 0 || idx >= a.Len() || a.Letter(idx) != Letter(strings.ToLower(string(rune(v)))[0]) {
+					t.Fatalf("%s: Letter(IndexOf(%q)) wrong (index %d)", b.name, l, idx)
+				}
+			} else if a.IndexOf(l) >= 0 {
+				t.Fatalf("%s: IndexOf(invalid %q) = %d", b.name, l, a.IndexOf(l))
+			}
+			if ok, pos := a.AllValid([]Letter{a.Letter(0), l}); ok != a.IsValid(l) || (!ok && pos != 1) || (ok && pos >= 0) {
+				t.Fatalf("%s: AllValid reports (%v,%d) for %q", b.name, ok, pos, l)
+			}
+			if !isComp {
+				continue
+			}
+			c, ok := comp.Complement(l)
+			tab := comp.ComplementTable()
+			if ok {
+				if tab[l] != c {
+					t.Fatalf("%s: method and table complement of %q differ: %q vs %q", b.name, l, c, tab[l])
+				}
+				if cc, ok2 := comp.Complement(c); !ok2 || cc != l {
+					t.Fatalf("%s: complement is not an involution at %q", b.name, l)
+				}
+				lower := func(x Letter) Letter { return Letter(strings.ToLower(string(rune(x)))[0]) }
+				if (lower(l) == l) != (lower(c) == c) && lower(c) != Letter(strings.ToUpper(string(rune(c)))[0]) {
+					t.Fatalf("%s: complement of %q changes case: %q", b.name, l, c)
+				}
+				if a.IsValid(l) && !a.IsValid(c) {
+					t.Fatalf("%s: complement of valid %q is invalid %q", b.name, l, c)
+				}
+				if a.IsValid(l) && a.Len() == 4 && a.IndexOf(c) != 3-a.IndexOf(l) {
+					t.Fatalf("%s: index of complement of %q is %d, want %d", b.name, l, a.IndexOf(c), 3-a.IndexOf(l))
+				}
+			} else if tab[l] < 128 {
+				t.Fatalf("%s: unpaired %q has ASCII table entry %q", b.name, l, tab[l])
+			}
+		}
+	}
+	fmt.Printf("BOUNDED name=C17.builtins cases=%d nontrivial=%d exhaustive=true domain=%q\n", cases, nontrivial, "7 built-in alphabets x all 256 letter values, plus all indices")
+}
